@@ -3,14 +3,15 @@
 F-c16-gcxs-indptr-product   GCXS with two or more compressed axes whose extents multiply to more than memory: `_from_coo` allocates
                             `np.bincount(..., minlength=row_size)` and `indptr = np.empty(row_size + 1)` with row_size = prod(compressed extents)
                             (Props/C16: from_coo_counterexample_family).  Region: conversion to GCXS, len(compressed_axes) >= 2, MemoryError.
-F-c16-dot-rows-times-cols   COO @ COO / GCXS @ GCXS (2-d): `next_[:] = -1` once per result row, rows*cols cell writes
-                            (Props/C16: dot_csr_csr_counterexample_family).  Region: 2-d sparse-sparse product, rows*cols >= 10^11, deadline missed.
 F-c16-var-densifies         var/std subtract the (non-zero) mean with keepdims and broadcast: the difference has a non-zero fill and is materialised densely.
                             Region: var/std over an axis of a 2-d+ array whose reduced size exceeds memory, MemoryError.
 F-c16-gcxs-reduce-product   GCXS reduction over a compressed axis of a >=3-d array: the result is compressed along the product of the remaining axes.
                             Region: GCXS, ndim >= 3, reduced axes include the compressed axis, MemoryError.
 F-c16-gcxs-getitem-product  GCXS indexing expands every slice to `np.arange` and takes the cartesian product of the column selectors (`convert_to_flat`).
                             Region: GCXS, ndim >= 3, key leaving two or more full uncompressed axes, MemoryError.
+
+Retired (fixed in /repo, the witness is a must-pass case of c16.py: product:coo@coo:huge / product:gcxs@gcxs:huge, deadline 60 s incl. JIT warm-up):
+F-c16-dot-rows-times-cols   COO @ COO / GCXS @ GCXS (2-d) reset `next_[:] = -1` once per result row (4b845d6); Props/C16: statement_dot_csr_csr.
 """
 from __future__ import annotations
 
@@ -34,10 +35,6 @@ def classify(name, case, msg):
         ca = case.get("caxes") if op == "from_coo" else (case.get("kwargs") or {}).get("compressed_axes")
         if ca is not None and len(ca) >= 2 and _prod(shape[a] for a in ca) >= BIG and (op == "from_coo" or case.get("to") == "gcxs"):
             return "F-c16-gcxs-indptr-product"
-    if op == "product" and case.get("kind") == "matmul" and "timeout" in msg:
-        a, b = case.get("a", {}).get("shape", []), case.get("b", {}).get("shape", [])
-        if len(a) == 2 and len(b) == 2 and a[0] * b[1] >= BIG and case.get("format_a") == case.get("format_b"):
-            return "F-c16-dot-rows-times-cols"
     if op == "method" and case.get("name") in ("var", "std") and mem and len(shape) >= 2 and _prod(shape) >= BIG \
             and (case.get("kwargs") or {}).get("axis") is not None:
         return "F-c16-var-densifies"
